@@ -2,6 +2,7 @@
 import json, os, re
 import reach, hirq, mirq
 from facts import CheckerError, find_all
+from props.c05 import strip
 
 ORACLE = os.path.join(os.path.dirname(os.path.abspath(__file__)), "..", "..", "oracle", "operator_typing.json")
 EXPR = "biscuit_auth::datalog::expression"
@@ -79,6 +80,88 @@ def check(fb, ctx):
         else:
             ctx.ok("TYPING", f"Binary::{op}", f"{body['file']}:{body['line']}", f"{len(have)} accepted (left,right) cells match the oracle")
     ctx.floor("accepted binary cells", n_cells, 370)
+
+    # ---- 2a. POPORDER: the stack machine pops the right operand first
+    eb0 = fb.body(EXPR + "::Expression::evaluate")
+    po = hirq.pop_order(fb.hir_of(eb0), r"expression::Binary::evaluate(_with_closure)?$")
+    ctx.floor("binary evaluations fed from two stack pops", len(po), 2)
+    for ln, v in po:
+        ctx.check(v == "ok", "POPORDER", f"Expression::evaluate: evaluation at +{ln - eb0['line']} receives (second pop, first pop) as (left, right)", f"POPORDER|evaluate|{po.index((ln, v))}", f"operands taken from the stack are passed as {v}: the first value popped is the RIGHT operand", f"{eb0['file']}:{ln}")
+    # ---- 2b. ROLES: in the arms of the non-commutative operators the LEFT operand occupies the slot the specification gives it
+    roles = json.load(open(os.path.join(os.path.dirname(os.path.dirname(os.path.dirname(os.path.abspath(__file__)))), "oracle", "operand_roles.json")))["roles"]
+
+    def ids_in(n, ids):
+        return bool(find_all(n, lambda z: hirq.is_lid(z, ids)))
+
+    def witnesses(node, L, R, specs, out):
+        """walk an arm body; follow `match (f(left), g(right)) { (Some(l), Some(r)) => .. }` rebindings; collect verdicts"""
+        if isinstance(node, list):
+            for x in node:
+                witnesses(x, L, R, specs, out)
+            return
+        if not isinstance(node, dict):
+            return
+        k = node.get("k")
+        if k == "match" and strip(node.get("scrut", {})).get("k") == "tup" and len(strip(node["scrut"])["es"]) == 2:
+            es = strip(node["scrut"])["es"]
+            if ids_in(es[0], L) and not ids_in(es[0], R) and ids_in(es[1], R) and not ids_in(es[1], L):
+                for arm in node["arms"]:
+                    p_ = arm["pat"]
+                    L2, R2 = set(L), set(R)
+                    if p_.get("k") == "tuple" and len(p_["pats"]) == 2:
+                        L2 |= {b_["id"] for b_ in find_all(p_["pats"][0], lambda z: z.get("k") == "bind")}
+                        R2 |= {b_["id"] for b_ in find_all(p_["pats"][1], lambda z: z.get("k") == "bind")}
+                    witnesses(arm["body"], L2, R2, specs, out)
+                return
+        for sp in specs:
+            slots = None
+            if sp["kind"] == "binary" and k == "binary" and node.get("op") == sp["op"]:
+                slots = {"a": node["a"], "b": node["b"]}
+                lslot, rslot = "a", "b"
+            elif sp["kind"] == "mcall" and k == "mcall" and node.get("name") == sp["name"]:
+                slots = {"recv": node["recv"]}
+                for i_, a_ in enumerate(node.get("args", [])):
+                    slots[f"arg{i_}"] = a_
+                lslot = sp["left"]
+                rslot = sp.get("right") or next((x for x in slots if x != lslot and ids_in(slots[x], L | R)), None)
+            elif sp["kind"] == "format" and k == "format" and len(node.get("args", [])) >= 2:
+                slots = {f"arg{i_}": a_ for i_, a_ in enumerate(node["args"])}
+                lslot, rslot = "arg0", "arg1"
+            if slots is None or lslot not in slots:
+                continue
+            l_has_l, l_has_r = ids_in(slots[lslot], L), ids_in(slots[lslot], R)
+            others_have_l = any(ids_in(v, L) for kx, v in slots.items() if kx != lslot)
+            if l_has_l and not l_has_r:
+                out.append(("ok", node["ln"]))
+            elif l_has_r and not l_has_l and others_have_l:
+                out.append(("swapped", node["ln"]))
+        for v in node.values():
+            if isinstance(v, (dict, list)):
+                witnesses(v, L, R, specs, out)
+
+    n_roles = 0
+    for arm in m["arms"]:
+        p_ = arm["pat"]
+        if p_.get("k") != "tuple" or len(p_["pats"]) != 3:
+            continue
+        ops_here = {sh(v) for v in hirq.pat_variants(p_["pats"][0])}
+        for op in sorted(ops_here & set(roles)):
+            tys = {sh(v) for v in hirq.pat_variants(p_["pats"][1])}
+            specs = [sp for sp in roles[op] if not sp.get("only_types") or tys & set(sp["only_types"])]
+            if not specs:
+                continue
+            L = {b_["id"] for b_ in find_all(p_["pats"][1], lambda z: z.get("k") == "bind")}
+            R = {b_["id"] for b_ in find_all(p_["pats"][2], lambda z: z.get("k") == "bind")}
+            if not L or not R:
+                continue
+            out = []
+            witnesses(arm["body"], L, R, specs, out)
+            if not out:
+                continue        # the arm computes in a shape the role table does not describe: not decided for this arm
+            n_roles += 1
+            bad = [ln for v, ln in out if v == "swapped"]
+            ctx.check(not bad, "ROLES", f"Binary::{op} over {'/'.join(sorted(tys))}: the left operand is the {specs[0]['left']} of `{specs[0].get('name') or specs[0].get('op') or 'format!'}`", f"ROLES|{op}|{'+'.join(sorted(tys))}", f"operands are swapped at line {bad[0] if bad else '?'}: the specification computes `left {op} right`, the code computes `right {op} left`", f"{body['file']}:{arm['ln']}")
+    ctx.floor("operator arms with a decided operand order", n_roles, 27)
 
     # unary
     ubody, um = _the_match(fb, EXPR + "::Unary::evaluate", "(&datalog::expression::Unary, datalog::Term)")
@@ -177,6 +260,29 @@ def check(fb, ctx):
     for fn in ("biscuit_auth::datalog::symbol::TemporarySymbolTable::<'a>::insert", "biscuit_auth::datalog::symbol::SymbolTable::insert"):
         intern_rule(fb, ctx, fn, "INTERN")
 
+    # ---- 7b. LOOKUP: a symbol lookup that fails during evaluation is an UnknownSymbol error, never a made-up value
+    n_lookup = 0
+    for fn in (EXPR + "::Unary::evaluate", EXPR + "::Binary::evaluate", "biscuit_auth::token::builder::term::Term::from_datalog"):
+        hb = fb.hir_of(fn)
+        lookups = find_all(hb["body"], lambda z: z.get("k") == "mcall" and z.get("name") == "get_symbol")
+        unk = lambda z: bool(find_all(z, lambda y: (hirq.ctor_name(y) or (y.get("res", {}).get("path") if y.get("k") == "path" else "") or "").endswith("Expression::UnknownSymbol")))
+        for n_, g in enumerate(lookups):
+            n_lookup += 1
+            # `.get_symbol(i)[.map(..)|.cloned()..].ok_or(<an Expression error>)`
+            via_ok_or, cur = False, g
+            for _ in range(4):
+                up = [z for z in find_all(hb["body"], lambda z: z.get("k") == "mcall" and strip(z.get("recv")) is cur)]
+                if not up:
+                    break
+                if up[0].get("name") in ("ok_or", "ok_or_else"):
+                    via_ok_or = bool(find_all(up[0]["args"][0], lambda y: re.search(r"error::Expression::Unknown\w+$", hirq.ctor_name(y) or (y.get("res", {}).get("path") if y.get("k") == "path" else "") or "")))
+                    break
+                if up[0].get("name") not in ("map", "cloned", "copied", "as_deref", "as_ref"):
+                    break
+                cur = up[0]
+            via_match = bool(find_all(hb["body"], lambda z: z.get("k") == "match" and find_all(z.get("scrut", {}), lambda y: y is g) and any(unk(a["body"]) and (hirq.ctor_name(strip(hirq.tail(a["body"]))) or "").endswith("::Err") for a in z["arms"])))
+            ctx.check(via_ok_or or via_match, "LOOKUP", f"{fn.split('::')[-2]}::{fn.split('::')[-1]}: symbol lookup #{n_} fails with UnknownSymbol", f"LOOKUP|{fn.split('::')[-2]}::{fn.split('::')[-1]}|{n_}", "the Option returned by get_symbol is neither `.ok_or(UnknownSymbol(..))` nor matched with an `Err(UnknownSymbol(..))` arm: an unknown symbol index evaluates to a placeholder value instead of an error", f"{hb['file']}:{g['ln']}")
+    ctx.floor("symbol lookups during evaluation", n_lookup, 16)
     # ---- 8. extern function results: from_datalog never builds a parameter
     fd = fb.hir_of("biscuit_auth::token::builder::term::Term::from_datalog")
     params = [n for n in find_all(fd["body"], lambda n: (hirq.ctor_name(n) or "").endswith(("Term::Parameter", "MapKey::Parameter")))]
